@@ -584,7 +584,17 @@ pub fn c12(ctx: &mut Ctx) {
             continue;
         }
         // P: a complete paragraph without double quotes, ending in a terminator + blank line
-        let mut p = match r.below(9) {
+        let mut p = match r.below(10) {
+            9 => {
+                // many short flagged sentences, some flagged twice on the same characters (a lower-case `i` at the start)
+                let pool = ["i went home", "teh cat sat", "it is better then that", "i saw an apple and a apple", "the the end came", "she could of left", "i recieve mail", "there are alot of things", "i think its fine"];
+                let n = r.range(10, 40);
+                let mut v: Vec<&str> = Vec::new();
+                for _ in 0..n {
+                    v.push(*r.pick(&pool));
+                }
+                v.join(". ")
+            }
             8 => {
                 // one sentence over the length threshold of the readability rule, with a doubled word and, further on,
                 // a misspelling: three lints of different importance that overlap in a chain
@@ -642,7 +652,7 @@ pub fn c12(ctx: &mut Ctx) {
         ctx.report.evaluations += 1;
         let plen = p.chars().count();
         // every eighth pair through the JS-facing linter (its own overlap resolution sits between the rules and the user)
-        let via_js = i % 8 == 0;
+        let via_js = i % 8 == 0 || (i % 2 == 0 && p.len() > 150 && p.contains(". i "));
         if via_js {
             let res = guarded(|| {
                 let run = |t: &str, shift: usize| -> Vec<String> {
